@@ -12,9 +12,9 @@ def kf_match(kfs, key):
     return None
 
 
-def oracle_part(ctx, mode, name, a_what):
+def oracle_part(ctx, mode, name, a_what, fsname="memfs", driver_cmd="fso"):
     """Runs the oracle stream in [mode]; reports violations / known findings. Returns analysis or None."""
-    r = oracle.run_streams(ctx, name, mode)
+    r = oracle.run_streams(ctx, name, mode, fsname=fsname, driver_cmd=driver_cmd)
     if r is None:
         return None
     cases, obs, ora, mod = r
@@ -53,7 +53,7 @@ def oracle_part(ctx, mode, name, a_what):
             ctx.known_finding(e["id"], e["what"])
             continue
         ctx.violation(name, a_what % (key, len(where)),
-                      {"stream": {"name": name, "harness": "fso", "driver": "fso", "mode": mode}, "case": hist, "step": j,
+                      {"stream": {"name": name, "harness": "fso", "driver": driver_cmd, "mode": mode, "fs": fsname}, "case": hist, "step": j,
                        "deviation_key": key, "implementation": obs[i].split(" | ")[j] if j < len(obs[i].split(" | ")) else "<none>",
                        "kernel": ora[i].split(" | ")[j], "occurrences_in_run": len(where)})
     # T: where implementation and kernel agree, the implementation MODEL must agree with the specification too
@@ -123,10 +123,35 @@ def fsbfs_part(ctx):
     report_mismatches(ctx, mm, st, "MemFS differs from its Coq model on %d (state, call) pairs of the bounded-exhaustive search")
 
 
+def orefa_part(ctx):
+    st = {"name": "orefa", "harness": "orefa", "driver": "orefa"}
+    mm = ctx.stream("orefa", "orefa", "orefa")
+    if mm is None:
+        return
+    report_mismatches(ctx, mm, st, "OrefaFS differs from its Coq model (Fs/OrefaFS.v, about which C05_orefa_* / C07_orefa_* are proved) on %d generated histories")
+
+
+def xcheck_part(ctx):
+    """Re-evaluate a sample of the fs histories inside Coq (vm_compute) and compare with the extracted code."""
+    import os
+    from .. import coqxcheck
+    r = coqxcheck.run(ctx, os.path.join(ctx.dir, "fs.cases"), sample=(25 if ctx.tier == "quick" else 150))
+    if r is None:
+        return
+    n, fails = r
+    ctx.coverage["extraction_cross_check"] = {"histories_re_evaluated_inside_coq": n, "differences": len(fails)}
+    if fails:
+        ctx.broken("extraction-cross-check", "the extracted OCaml model and Coq's own evaluation (vm_compute) of World.wrun differ on sampled histories", str(fails)[:2000])
+
+
 def check_C01(ctx):
     ctx.proofs()
     fs_part(ctx)
+    xcheck_part(ctx)
     fsbfs_part(ctx)
+    orefa_part(ctx)
+    oracle_part(ctx, "admin", "ofso", "OrefaFS deviates from Linux (key %s, %d histories) and the deviation is not a listed known finding",
+                fsname="orefafs", driver_cmd="ofso")
     oracle_part(ctx, "admin", "fso", "MemFS deviates from Linux (key %s, %d histories) and the deviation is not a listed known finding")
     corpus_part(ctx, "C01-witness.cases", "fso-corpus")
 
